@@ -128,7 +128,7 @@ def emit_param_str(
                             )
                         )
                         if emit_type and _param.get("typ")
-                        else None
+                        else (None if name == "return_type" else name)
                     ),
                     (
                         _fill(
